@@ -1,5 +1,6 @@
 import ProductMD.Driver.Proto
 import ProductMD.Model.Forest
+import ProductMD.Model.ForestDel
 /-! driver ops for C11: histories of `add` calls on the variant forest, with a snapshot after every step,
 then lookups and `get_variants` queries on the final state.  Calls the definitions of `Model/Forest.lean`. -/
 namespace PM.Driver.OpsForest
@@ -51,7 +52,36 @@ def history (a : Json) : Json :=
   Json.mkObj [("steps", Json.arr stepsRev.reverse.toArray),
               ("queries", Json.arr ((getArr a "queries").map (query U fuel final)).toArray)]
 
+/-- histories of `add` and `del` steps (`{"t": "del", "c": container, "name": …}`); after every step the outcome, the snapshot
+and – for a `del` – the entry the model says it designates; `lookups` (name lists per step) are evaluated on the state after the step -/
+def delHistory (a : Json) : Json :=
+  let vs := (getArr a "variants").map attrsOf
+  let n := vs.length
+  let U : Nat → Attrs := fun i => vs.getD i default
+  let fuel := (getNat? a "fuel").getD 900
+  let gvall : State → (String × Json) := fun st =>
+    ("gvall", jres (fun l => Json.arr (l.map jnat).toArray) (getVariants U st fuel none none [] true))
+  let (final, stepsRev) := (getArr a "ops").foldl (fun (acc : State × List Json) j =>
+      match getStr? j "t" with
+      | some ['d','e','l'] =>
+        let c := contOf j "c"
+        let name := getStrD j "name"
+        let tgt := match delResolve acc.1 c name with
+          | .ok (d, k, v) => Json.arr #[jcont d, jstr k, jnat v]
+          | .error e => Json.str e.name
+        let r := delitem acc.1 c name
+        let out := match r.2 with | .ok () => Json.str "ok" | .error e => Json.str e.name
+        let look := jres jnat (getitem U acc.1 c name)
+        (r.1, Json.mkObj (("out", out) :: ("target", tgt) :: ("before", look) :: gvall r.1 :: snapshot U n r.1) :: acc.2)
+      | _ =>
+        let o := opOf j
+        let r := add U fuel acc.1 o.c o.v o.key
+        let out := match r.2 with | .ok () => Json.str "ok" | .error e => Json.str e.name
+        (r.1, Json.mkObj (("out", out) :: gvall r.1 :: snapshot U n r.1) :: acc.2)) (State.empty, [])
+  Json.mkObj [("steps", Json.arr stepsRev.reverse.toArray),
+              ("queries", Json.arr ((getArr a "queries").map (query U fuel final)).toArray)]
+
 def ops : List (String × (Json → Json)) :=
-  [("c11_history", history)]
+  [("c11_history", history), ("c11_del_history", delHistory)]
 
 end PM.Driver.OpsForest
